@@ -1427,6 +1427,12 @@ KIND_TEMPLATES = {
     "pydantic": ("from pydantic import BaseModel, Field\n", "class {name}(BaseModel):\n{body}", "{n}: {t}", "{n}: {t} = {d}",
                  "{n}: {t} = Field(default_factory={f})"),
 }
+# sqlalchemy: scalar columns only; the FIRST field of the spec is the (natural, not generated) primary key
+SQLALCHEMY_TEMPLATE = ("from sqlalchemy.orm import DeclarativeBase, Mapped, mapped_column\n"
+                       "class Base{c}(DeclarativeBase):\n    pass\n"
+                       "class {name}(Base{c}):\n    __tablename__ = 't{c}'\n{body}\n")
+# a required keyword-only field (constructor detail of the kinds that have it; an ordinary required field elsewhere)
+KW_ONLY_TEMPLATES = {"dataclass": "{n}: {t} = field(kw_only=True)", "attrs": "{n}: {t} = attr.field(kw_only=True)"}
 
 
 _KIND_COUNTER = [0]
@@ -1435,11 +1441,26 @@ _KIND_COUNTER = [0]
 def build_kind_model(kind, name, spec, extra_ns=None):
     """spec: list of (field name, type text, default: None | ('v', literal text) | ('f', factory name)); returns the class or None
     when the kind cannot express the spec (no defaults in TypedDict, no factories in NamedTuple)"""
+    if kind == "sqlalchemy":
+        if any(d is not None for _n, _t, d in spec) or any(t not in ("int", "str", "float", "bool") for _n, t, _d in spec):
+            return None
+        _KIND_COUNTER[0] += 1
+        # the second column has another name in the database than the attribute: the model's field is the ATTRIBUTE
+        body = "\n".join(f"    {n}: Mapped[{t}]" + (" = mapped_column(primary_key=True)" if i == 0 else f" = mapped_column('{n}_col')" if i == 1 else "")
+                         for i, (n, t, _d) in enumerate(spec))
+        src = SQLALCHEMY_TEMPLATE.format(c=_KIND_COUNTER[0], name=name, body=body)
+        import types
+        mod = types.ModuleType(f"kinds_family_{_KIND_COUNTER[0]}")
+        sys.modules[mod.__name__] = mod
+        exec(src, mod.__dict__)      # class definition only
+        return mod.__dict__[name]
     imports, cls_t, req_t, dv_t, df_t = KIND_TEMPLATES[kind]
     lines = []
     for n, t, d in spec:
         if d is None:
             lines.append("    " + req_t.format(n=n, t=t))
+        elif d[0] == "kw":
+            lines.append("    " + KW_ONLY_TEMPLATES.get(kind, req_t).format(n=n, t=t))
         elif d[0] == "v":
             if dv_t is None:
                 return None
@@ -1491,6 +1512,12 @@ def kinds_family(tier, seed):
         # private-looking names: NamedTuple forbids them, pydantic turns them into private attributes (documented) -> skipped
         "private": [("id", "int", None), ("_rev", "int", None), ("_opt", "int", ("v", "0"))],
         "single": [("value", "Any", None)],
+        # private-looking REQUIRED names only: TypedDict can express this one
+        "private_req": [("id", "int", None), ("_rev", "int", None)],
+        # natural (string) primary key first: the sqlalchemy twin takes part in this spec only
+        "sa_pk": [("code", "str", None), ("title", "str", None), ("n", "int", None)],
+        # a keyword-only field declared in the middle: fields stay in declaration order, the parameters do not
+        "kw_mid": [("a", "int", None), ("b", "str", ("kw", None)), ("c", "float", None)],
     }
     nms = {
         "plain": {},
@@ -1501,17 +1528,23 @@ def kinds_family(tier, seed):
         "skip": {"skip": ["c", "age", "d"]},
         "map_private": {"map": [("_rev", ("meta", ...))], "name_style": NameStyle.CAMEL},
     }
-    SPEC_EXCLUDES = {"private": {"namedtuple", "pydantic"}}
+    SPEC_EXCLUDES = {"private": {"namedtuple", "pydantic"}, "private_req": {"namedtuple", "pydantic"}}
     def make_items():
         # never called by a correct pipeline (a factory runs per load); a tagged result exposes hoisting
         return ["made"]
     tag(make_items, "factory:make_items")
     kinds = list(KIND_TEMPLATES)
+    SPEC_EXTRA_KINDS = {"sa_pk": ["sqlalchemy"]}
     modes = [DebugTrail.ALL] if tier == "quick" else [DebugTrail.ALL, DebugTrail.FIRST, DebugTrail.DISABLE]
+    # (private_req x as_list: TypedDict's alphabetical field order -- the C17 known finding -- meets the skipped private field;
+    # the ordering finding is already reported on the other specs)
+    NM_EXCLUDES = {("private_req", "as_list")}
     for sname, spec in specs.items():
         for nname, nm in nms.items():
+            if (sname, nname) in NM_EXCLUDES:
+                continue
             for mode in modes:
-                for kind in kinds:
+                for kind in kinds + SPEC_EXTRA_KINDS.get(sname, []):
                     rec = {"kind": "kinds", "spec": sname, "fields": [[n, t, list(d) if d else None] for n, t, d in spec], "nm": nname,
                            "model_kind": kind, "debug_trail": mode.name}
                     try:
@@ -1520,6 +1553,11 @@ def kinds_family(tier, seed):
                             rec["inexpressible"] = True
                             emit(rec)
                             continue
+                        try:
+                            import inspect
+                            rec["ctor_params"] = [[p.name, p.kind.name] for p in inspect.signature(M).parameters.values()]
+                        except (TypeError, ValueError):
+                            rec["ctor_params"] = None
                         acc = CodeGenAccumulator()
                         retort = Retort(recipe=[name_mapping(M, **nm), acc], debug_trail=mode)
                         for what in ("loader", "dumper"):
